@@ -81,3 +81,24 @@ PROP = {
 }
 
 # --- further leg groups (flag replica c03f, runtime, external loop) are appended below ---------------------------
+from legs_c03f import C03F_LEGS  # noqa: E402
+from legs_c03r import C03R_LEGS  # noqa: E402
+
+PROP["legs"] += C03R_LEGS + C03F_LEGS
+PROP["level_text"] += (
+    " Runtime legs (`rt`, `rt-tsan`): the real compio-runtime / compio-driver on both drivers — block_on, the "
+    "compat-futures and compat-tokio external loops and a hand-written external loop that sleeps in poll(2) on the driver's "
+    "fd — a remote thread wakes a task while the owner is (per /proc task state and the driver's PollEnter/PollExit events) "
+    "asleep in the kernel, about to sleep (pause hooks between flag reset and the wait) or awake; the oracle is the same "
+    "conservation at logical quiescence, with a 'kick' I/O as last resort that distinguishes a lost wake (kick rescues it) "
+    "from a dead harness. Flag-replica legs (`flag-replica-*`): model-assisted — the real AwakeFlag driven by a replica of "
+    "the driver loops under Miri weak memory; they see memory-ordering defects in the flag, not changes to the real loops.")
+PROP["rule"] += (
+    "; runtime legs: a case is one (loop kind, driver, owner state at wake, pause point, number of wakers) scenario; "
+    "non-trivial if the wake arrived while the owner was asleep or between reset and wait; distinct = (loop kind, driver, "
+    "owner state at wake, pause point); flag-replica legs: a case is one replica program; distinct = (driver loop, "
+    "mailbox ordering, wakers, owner phase at wake)")
+PROP["assumptions"] += [
+    "runtime legs: 'asleep' is read from /proc/self/task/<tid> state S/wchan plus the hook events PollEnter without PollExit",
+    "flag-replica legs trust that the replica mirrors iour::Driver::poll/flush, poll::Driver::poll and Notify::wake_by_ref of this tree",
+]
